@@ -42,7 +42,8 @@ def io_rules(ctx, chk):
     # write_packet_with_ack reads an io::Ack and checks the outcome; read_packet returns parse errors
     for b in zvt.bodies.values():
         r = b.raw
-        if r.get("root") == "zvt::io::PacketTransport::<S>::write_packet_with_ack" and r["defkind"] == "Closure":
+        if r.get("root") == "zvt::io::PacketTransport::<S>::write_packet_with_ack" and r["defkind"] == "Closure" and \
+                b.id.count("{closure") == 1:
             reads = [t for _, t in b.calls() if callee(t) == "zvt::io::PacketTransport::<S>::read_packet"]
             tys = [ty_str(t["f"]["a"][-1]) for t in reads]
             chk.require(tys == ["zvt::io::Ack"], "C06/ack-parser", "write_packet_with_ack",
@@ -52,7 +53,8 @@ def io_rules(ctx, chk):
             # W then R, each result examined; any err edge leads to a return of Err without further I/O
             bad = _helper_discipline(b, eg)
             chk.require(not bad, "C06/helper", "write_packet_with_ack", "; ".join(bad), "write, check, read Ack, check", b.sp())
-        if r.get("root") == "zvt::io::PacketTransport::<S>::read_packet_with_ack" and r["defkind"] == "Closure":
+        if r.get("root") == "zvt::io::PacketTransport::<S>::read_packet_with_ack" and r["defkind"] == "Closure" and \
+                b.id.count("{closure") == 1:
             # the mirror helper (read, then acknowledge): read first, Ack written only after a successful read,
             # both outcomes examined, nothing after a failure
             import events
@@ -63,7 +65,7 @@ def io_rules(ctx, chk):
                 b.dominates(rd[0], wr[0][0])
             bad = _helper_discipline(b, eg) if shape else ["expected exactly read_packet then write_packet(Ack)"]
             chk.require(not bad, "C06/helper", "read_packet_with_ack", "; ".join(bad), "read, check, write Ack, check", b.sp())
-        if r.get("root") == "zvt::io::PacketTransport::<S>::read_packet" and r["defkind"] == "Closure":
+        if r.get("root") == "zvt::io::PacketTransport::<S>::read_packet" and r["defkind"] == "Closure" and b.id.count("{closure") == 1:
             parses = [(bb, t) for bb, t in b.calls() if callee(t) == "zvt_builder::ZvtParser::zvt_parse"]
             chk.require(len(parses) == 1, "C06/parse-once", "read_packet", "expected one zvt_parse call, found %d" % len(parses),
                         "", b.sp())
@@ -77,6 +79,7 @@ def io_rules(ctx, chk):
                     for lab, nb in eg.edges.get(i, []):
                         if lab and lab[0] == "err" and lab[1] and lab[1][3] == bb:
                             tested = True
+                tested = tested or eg.propagated(bb)
                 chk.require(tested, "C06/parse-error-propagates", "read_packet",
                             "the outcome of zvt_parse is not examined: an undecodable packet would not be an error",
                             "Err edge of zvt_parse tested", t.get("sp"))
@@ -105,7 +108,7 @@ def _helper_discipline(b, eg):
         if ev[0] == "io":
             tested = any(lab and lab[0] in ("ok", "err") and lab[1] and lab[1][3] == i
                          for j in range(b.n) for lab, _ in eg.edges.get(j, []))
-            if not tested:
+            if not tested and not eg.propagated(i):
                 bad.append("outcome of %s(%s) is never examined" % (ev[1], ev[2]))
     return bad
 
